@@ -117,10 +117,41 @@ fn gen_round_time(rng: &mut Rng) -> i64 {
 fn gen_round_neighbour(rng: &mut Rng) -> i64 {
     gen_round_time(rng) + *rng.pick(&[0i64, 0, 1, -1])
 }
+/// The i64 edge stratum, 2^62 < |v| <= 2^63: i64::MAX, i64::MIN, MAX-1, MIN+1, MAX-k / MIN+k for small
+/// k, +-2^63 -+ 2^j, random in the top binade. Only for values that are CONVERTED (casts never overflow);
+/// never an operand of integer arithmetic.
+fn gen_edge(rng: &mut Rng) -> i64 {
+    let top = rng.chance(0.5);
+    let off: i64 = match rng.below(6) {
+        0 => 0,
+        1 => 1,
+        2 => rng.range_i64(0, 1000),
+        3 => rng.range_i64(0, 1 << 41), // about two f32 spacings below 2^63
+        4 => {
+            let j = rng.range_i64(0, 62);
+            // 2^63 - 2^j = MAX - (2^j - 1);  -2^63 + 2^j = MIN + 2^j
+            if top {
+                (1i64 << j) - 1
+            } else {
+                1i64 << j
+            }
+        }
+        _ => rng.range_i64(0, P62 - 1),
+    };
+    if top {
+        i64::MAX - off
+    } else {
+        i64::MIN + off
+    }
+}
+fn is_edge(t: i64) -> bool {
+    t.unsigned_abs() > (1u64 << 62)
+}
 fn gen_time(rng: &mut Rng) -> i64 {
     match rng.below(10) {
         0..=2 => gen_boundary(rng),
         3..=5 => gen_round_neighbour(rng),
+        6 => gen_edge(rng),
         _ => gen_i64(rng, 62),
     }
 }
@@ -372,6 +403,16 @@ fn t2q_case(rep: &mut Report, sub: &'static str, case: u64, t: i64) {
     if !(q.unit == SECOND) {
         rep.violation("C18/t2q/unit", sub, case, format!("Quantity::from(Time({})) has unit {:?}, expected SECOND", t, q.unit));
     }
+    if is_edge(t) {
+        rep.tally("t2q_i64_edge_converted");
+        if t == i64::MAX || t == i64::MIN {
+            rep.tally("t2q_i64_extreme_converted");
+        }
+    }
+    // every i64 is below 9.3e9 s in magnitude: the seconds must be finite (implied by the 2-ulp clause)
+    if !q.value.is_finite() {
+        rep.violation("C18/t2q/non-finite", sub, case, format!("Quantity::from(Time({})).value = {} but ns/1e9 = {:e} is finite", t, f(q.value), t as f64 / 1e9));
+    }
     rep.eval();
     // reference: exact quotient to ~2^-52 relative (2^-29 of an f32 ulp)
     let r64 = t as f64 / 1e9;
@@ -398,14 +439,37 @@ fn t2q_case(rep: &mut Report, sub: &'static str, case: u64, t: i64) {
 
 // ------------------------------------------------------------------------------------------ mono
 fn mono_case(rep: &mut Report, rng: &mut Rng, sub: &'static str, case: u64) {
-    let kind = rng.below(6);
-    let kind_name = ["adjacent", "small-step", "ulp-step", "sorted-random", "equal-and-adjacent", "round-time-neighbours"][kind as usize];
+    let kind = rng.below(7);
+    let kind_name = ["adjacent", "small-step", "ulp-step", "sorted-random", "equal-and-adjacent", "round-time-neighbours", "i64-edge"][kind as usize];
     let mut ts: Vec<i64> = Vec::with_capacity(9);
     if kind == 3 {
         for _ in 0..9 {
             ts.push(gen_time(rng));
         }
         ts.sort();
+    } else if kind == 6 {
+        // chain ending at i64::MAX (or starting at i64::MIN), built from the extreme inwards so that
+        // nothing overflows; steps 1, tiny, or of the order of the f32 spacing there (2^39)
+        let top = rng.chance(0.5);
+        let sk = rng.below(3);
+        let mut v = if top { i64::MAX } else { i64::MIN };
+        if rng.chance(0.3) {
+            let o = rng.range_i64(0, 1 << 42);
+            v = if top { v - o } else { v + o };
+        }
+        for _ in 0..9 {
+            ts.push(v);
+            let step = match sk {
+                0 => 1,
+                1 => rng.range_i64(0, 3),
+                _ => rng.range_i64(0, 1 << 40),
+            };
+            v = if top { v - step } else { v + step };
+        }
+        if top {
+            ts.reverse();
+        }
+        rep.tally("mono_i64_edge_chains");
     } else if kind == 5 {
         // c-4 ..= c+4 around a whole second / millisecond / microsecond / multiple of 2^32 / power of two
         let c = gen_round_time(rng);
@@ -521,6 +585,9 @@ fn roundtrip_case(rep: &mut Report, rng: &mut Rng, sub: &'static str, case: u64)
     rep.max("roundtrip_err_over_bound", err as f64 / (mag as f64 / 4194304.0 + 1.0));
     if err > 1 {
         rep.tally("roundtrip_inexact");
+    }
+    if is_edge(t) {
+        rep.tally("roundtrip_i64_edge");
     }
     if mag >= 1 << 30 {
         rep.max("roundtrip_large_relerr_over_2^-22", err as f64 / (mag as f64 / 4194304.0));
@@ -681,6 +748,9 @@ fn mixed_cells(rep: &mut Report, sub: &'static str, case: u64, m: i8, s: i8, a: 
     let det = format!("Quantity::new({}, mm^{} s^{}), Time({}), DimensionlessInteger({}), second Time({})", f(a), m, s, n, nd, n2);
     let vcls = if a.is_nan() { 3 } else if a.is_infinite() { 2 } else if a == 0.0 { 1 } else { 0 };
     rep.distinct(("mixed", m, s, bitlen(n), sgn(n), n % NS == 0, vcls));
+    if is_edge(n) || is_edge(n2) {
+        rep.tally("mixed_i64_edge_time");
+    }
     if n != 0 && n % NS == 0 {
         rep.tally("mixed_whole_second_time");
         if (m, s) == (0, 1) {
@@ -781,6 +851,36 @@ fn main() {
             }
         }
         rep.exhaustive("Time -> Quantity for +-(2^k + {-1,0,1}), k = 0..62");
+    }
+    // the i64 extremes: MAX-k, MIN+k for k <= 256 and +-2^63 -+ 2^j (conversion is a cast: in-domain for
+    // every i64), plus monotonicity of each adjacent pair
+    {
+        let mut edge: Vec<i64> = Vec::new();
+        for k in 0..=256i64 {
+            edge.push(i64::MAX - k);
+            edge.push(i64::MIN + k);
+        }
+        for j in 0..=62u32 {
+            edge.push(i64::MAX - ((1i64 << j) - 1));
+            edge.push(i64::MIN + (1i64 << j));
+        }
+        edge.sort();
+        edge.dedup();
+        for (i, &t) in edge.iter().enumerate() {
+            let idx = i as u64;
+            if args.mine("t2q-edge", idx) {
+                t2q_case(&mut rep, "t2q-edge", idx, t);
+                if i + 1 < edge.len() {
+                    rep.eval();
+                    if let (Some(a), Some(b)) = (t2q(&mut rep, "t2q-edge", idx, t), t2q(&mut rep, "t2q-edge", idx, edge[i + 1])) {
+                        if !(a.value <= b.value) {
+                            rep.violation("C18/t2q/monotone", "t2q-edge", idx, format!("i64 edge: Time({}) <= Time({}) but seconds {} > {}", t, edge[i + 1], f(a.value), f(b.value)));
+                        }
+                    }
+                }
+            }
+        }
+        rep.exhaustive("Time -> Quantity for i64::MAX-k, i64::MIN+k (k <= 256) and +-2^63 -+ 2^j (j = 0..62), value and adjacent-pair monotonicity");
     }
     // every whole second up to K (both signs): conversion accuracy, and neighbour probes t-1, t, t+1
     {
@@ -907,6 +1007,11 @@ fn main() {
     rep.floor("mixed_whole_second_time_on_second", 5_000);
     rep.floor("mixed_f32_inexact_integer_on_dimensionless", 5_000);
     rep.floor("seconds_neighbour_probes", 20_000);
+    rep.floor("t2q_i64_edge_converted", 5_000);
+    rep.floor("t2q_i64_extreme_converted", 100);
+    rep.floor("mono_i64_edge_chains", 2_000);
+    rep.floor("roundtrip_i64_edge", 2_000);
+    rep.floor("mixed_i64_edge_time", 2_000);
     rep.floor("mixed_cases_on_dimensionless", 200);
     rep.finish(&args);
 }
